@@ -609,6 +609,25 @@ def _index_scan_rules(ck, P, b):
                  and not ir.contains(lp, lambda z: z is y)]
         ck.check(ok_keep and len(after) == 1, "R-INDEX-SCAN", key + "|every-chunk-kept", "a chunk is appended to the chunk list before it is replaced, and the last one after the loop",
                  "a chunk can be replaced or left over without being appended to the chunk list", ir.loc(lp))
+        if len(after) == 1 and pushes:
+            # the last chunk is kept whenever it holds a tile: the push after the loop is unconditional or guarded by `len() > 0` / `!is_empty()` only
+            cname = ir.place_str(pushes[0]["recv"])
+            fs = [f for (n_, f_) in census.nodes_with_facts(ir.fn_block(b), lambda y: y is after[0]) for f in f_]
+            rel = [f for f in fs if any(isinstance(x, str) and (x == cname or x.startswith(cname + ".")) for x in f[1:])]
+
+            def fine(f):
+                if f[0] == "pred":
+                    return f[1] == cname and f[2] == "is_empty" and f[4] is False
+                if f[0] == "cmp":
+                    a_, op, b_ = f[1], f[2], f[3]
+                    if a_ == cname + ".len()":
+                        return (op, b_) in ((">", "0"), (">=", "1"), ("!=", "0"))
+                    if b_ == cname + ".len()":
+                        return (op, a_) in (("<", "0"), ("<=", "1"), ("!=", "0"))
+                return False
+            wrong = [" ".join(map(str, f[1:])) for f in rel if not fine(f)]
+            ck.check(not wrong, "R-INDEX-SCAN", key + "|last-chunk-kept", "the chunk left over after the loop is appended whenever it holds a tile (guard: %s)" % ([" ".join(map(str, f[1:])) for f in rel] or "none"),
+                     "the chunk left over after the merge loop is appended only if %s: its tiles are missing from the stream otherwise" % wrong, ir.loc(after[0]))
     # V4
     gr = [n for n in ir.walk_nodes(b["body"]) if n.get("k") == "mcall" and n.get("name") == "get_range" and "Blob" in (n.get("q") or "")]
     ok4 = False
